@@ -1,4 +1,99 @@
-// Kani harnesses mounted inside src/base64.rs (child module: sees private items)
+// Kani harnesses mounted inside src/base64.rs (child module: sees private items).
+//
+// C06: `!!binary` payloads are strict canonical base64 (padding and trailing-bit checks).
+use super::*;
+use crate::verif_common::as_str;
+use crate::verif_common::stdlite;
+
+fn ref_val(b: u8) -> Option<u32> {
+    if b >= b'A' && b <= b'Z' {
+        Some((b - b'A') as u32)
+    } else if b >= b'a' && b <= b'z' {
+        Some((b - b'a') as u32 + 26)
+    } else if b >= b'0' && b <= b'9' {
+        Some((b - b'0') as u32 + 52)
+    } else if b == b'+' {
+        Some(62)
+    } else if b == b'/' {
+        Some(63)
+    } else {
+        None
+    }
+}
+
+/// Reference decoder of ONE final quantum (RFC 4648 §4, canonical form required by §3.5):
+/// returns (number of bytes, bytes) or None if not canonical base64.
+fn ref_quantum(q: &[u8; 4]) -> Option<(usize, [u8; 3])> {
+    let a = ref_val(q[0])?;
+    let b = ref_val(q[1])?;
+    if q[2] == b'=' {
+        if q[3] != b'=' || b & 0x0F != 0 {
+            return None;
+        }
+        return Some((1, [((a << 2) | (b >> 4)) as u8, 0, 0]));
+    }
+    let c = ref_val(q[2])?;
+    if q[3] == b'=' {
+        if c & 0x03 != 0 {
+            return None;
+        }
+        return Some((2, [((a << 2) | (b >> 4)) as u8, (((b & 0xF) << 4) | (c >> 2)) as u8, 0]));
+    }
+    let d = ref_val(q[3])?;
+    Some((3, [((a << 2) | (b >> 4)) as u8, (((b & 0xF) << 4) | (c >> 2)) as u8, (((c & 3) << 6) | d) as u8]))
+}
+
+/// One quantum whose last `PAD` characters are '=' (concrete shape), the others symbolic
+/// non-whitespace ASCII.
+fn quantum_shape<const PAD: usize>() {
+    let mut q = [b'='; 4];
+    let mut i = 0;
+    while i < 4 - PAD {
+        let c: u8 = kani::any();
+        kani::assume(c < 0x80 && !c.is_ascii_whitespace());
+        q[i] = c;
+        i += 1;
+    }
+    let r = decode_base64_yaml(as_str(&q));
+    match (&r, ref_quantum(&q)) {
+        (Ok(v), Some((n, bytes))) => {
+            assert!(v.len() == n, "decoded length differs");
+            let mut k = 0;
+            while k < n {
+                assert!(v[k] == bytes[k], "decoded byte differs");
+                k += 1;
+            }
+            kani::cover!(true, "canonical quantum accepted");
+        }
+        (Err(_), None) => {
+            kani::cover!(ref_val(q[0]).is_some() && ref_val(q[1]).is_some(), "non-canonical trailing bits or padding rejected");
+        }
+        (Ok(_), None) => assert!(false, "non-canonical / invalid base64 accepted"),
+        (Err(_), Some(_)) => assert!(false, "canonical base64 rejected"),
+    }
+    std::mem::forget(r);
+}
+
+#[kani::proof]
+#[kani::unwind(7)]
+#[kani::stub(core::str::validations::run_utf8_validation, stdlite::run_utf8_validation)]
+fn c06_base64_pad2() {
+    quantum_shape::<2>()
+}
+
+#[kani::proof]
+#[kani::unwind(7)]
+#[kani::stub(core::str::validations::run_utf8_validation, stdlite::run_utf8_validation)]
+fn c06_base64_pad1() {
+    quantum_shape::<1>()
+}
+
+#[kani::proof]
+#[kani::unwind(7)]
+#[kani::stub(core::str::validations::run_utf8_validation, stdlite::run_utf8_validation)]
+fn c06_base64_pad0() {
+    quantum_shape::<0>()
+}
 
 // concrete-playback slot: bin/check writes the solver counterexample here as a unit test for native replay
 include!("/verif/.build/playback/base64_pb.rs");
